@@ -5,6 +5,7 @@ package govcrt
 // `go test -overlay` as package internal/govcrt; nothing is written into /repo.
 
 import (
+	"runtime"
 	"encoding/json"
 	"errors"
 	"fmt"
@@ -1144,6 +1145,12 @@ func Run(path string, target any) {
 		results = fv.Call(args)
 	}()
 	if panicked != nil {
+		if re, isRuntime := panicked.(runtime.Error); isRuntime {
+			// a Go run-time fault (index out of range, makeslice, nil dereference, ...) is never a
+			// specified exit: "panics when" only permits the function's own panic statements
+			out(fmt.Sprintf("reproduced run-time fault: %v", re))
+			return
+		}
 		if mayPanic {
 			out("holds (specified panic)")
 			return
